@@ -91,6 +91,14 @@ def gen_cases(tier: str, seed: int):
             [0, 'start', 'op1'], [1, 'create', 'a', {'spec': {'x': 0}}], [1.1, 'create', 'b', {'spec': {'x': 0}}], [4, 'stop_wait', 'op1'], [4.5, 'edit', 'a', {'spec': {'x': 1}}],
             [4.6, 'delete', 'b'], [4.7, 'create', 'c', {'spec': {'x': 9}}], [5, 'start', 'op2'], [9, 'compact'], [9.001, 'break', '410']]}},
     ]
+    # an object created after the start, still in its (retrying) creation cycle when the stream is re-listed: it is not 'first seen in a listing'
+    HN = [{'kind': 'create', 'id': 'c1', 'script': [['temp', 3], ['temp', 3], ['ok']]}, {'kind': 'update', 'id': 'u1'}, {'kind': 'resume', 'id': 'r1'},
+          {'kind': 'resume', 'id': 'r2', 'opts': {'deleted': True}}, {'kind': 'delete', 'id': 'd1'}]
+    # (creation never mixes with resuming; the deletion that supersedes the open creation would, if the object counted as met by a listing)
+    for brk in ('410', 'eof'):
+        for t_brk in (2.0, 3.5, 5.0):
+            cases.append({'name': f'relist-during-creation-{brk}-{t_brk}', 'desc': {'handlers': HN, 'settings': S, 'quiet': 15.0, 'horizon': 300.0, 'timeline': [
+                [0, 'start', 'op1'], [1, 'create', 'a', {'spec': {'x': 0}}], [t_brk, 'compact'], [round(t_brk + 0.001, 3), 'break', brk], [5.5, 'delete', 'a']]}})
     n = 500 if tier == 'quick' else 20000
     for i in range(n):
         cases.append({'name': f'rnd{i}', 'desc': rnd_desc(rng, i)})
